@@ -256,7 +256,46 @@ func leafSites(v *Val, where string, depth int) []c05Site {
 	return out
 }
 
-func nodeJSONKey(n Node) string { return n.Brief() }
+// nodeJSONKey identifies a sibling *up to what IsEqual documents as invisible*: pointers are
+// dereferenced at any depth (also inside containers), slices and arrays are not told apart.
+// Two siblings with the same key are never swapped (the swap would be an invisible mutation).
+func nodeJSONKey(n Node) string {
+	switch n.T {
+	case "leaf":
+		return derefKey(*n.Leaf)
+	case "cond":
+		e := ""
+		if n.Expr != nil {
+			e = nodeJSONKey(*n.Expr)
+		}
+		return fmt.Sprintf("cond(%q %s %s)", n.KW, n.Op.TextOf()+"/"+n.Op.Ctx+n.Op.K, e)
+	}
+	parts := ""
+	for _, e := range n.Elems {
+		parts += nodeJSONKey(e) + ","
+	}
+	return fmt.Sprintf("%s/%d[%s]", n.Kind, n.Cap, parts)
+}
+
+func derefKey(v Val) string {
+	switch v.K {
+	case "ptr":
+		return derefKey(v.Elems[0])
+	case "slice", "array":
+		parts := ""
+		for _, e := range v.Elems {
+			parts += derefKey(e) + ","
+		}
+		return "seq[" + parts + "]"
+	case "map", "imap":
+		parts := ""
+		for i, e := range v.Elems {
+			parts += v.Keys[i] + ":" + derefKey(e) + ","
+		}
+		return v.K + "[" + parts + "]"
+	}
+	return v.String()
+}
 
 func nodeSites(n *Node, where string, depth int, isRoot bool) []c05Site {
 	var out []c05Site
